@@ -400,7 +400,9 @@ def run(ctx):
     ctx.coverage["rule"] = (
         "generated streams (2-4 items, nested/grouped included) x EVERY byte offset 0..len (raw, through RecordStreamReader) x "
         "gzip-compressed file cuts (every offset in the thorough tier, ~60 offsets per stream in quick) x every fp.write call "
-        "index x {0,1,3} bytes stored x {raising, silently short}. distinct = distinct (stream, cut / fault); non-trivial = cut "
+        "index x {0,1,3} bytes stored x {raising, silently short}; every 7th cut and the whole stream are also read in TWO passes "
+        "(first loop left after 1 / all records); fixed streams: two versions of a type, coincident identifiers, a record of partially "
+        "filled digests / both flavours / both families, two streams concatenated in one file. distinct = distinct (stream, cut / fault); non-trivial = cut "
         "strictly inside a frame")
     ctx.coverage["exhaustive"] = True
     ok = core.standard_proof_stage(ctx, ["props/C04.vo", "model/Observe.vo"], "C04", THEOREMS, search_fn=search, gens=["gen_packer"])
